@@ -17,7 +17,9 @@ retired_at, refcount = 0 and link_successor are written only with the bucket gua
 removal paths. Not decided: linearizability of histories.
 """
 DECIDED = ["pointer-identity re-validation before replace/remove", "retirement_timestamp comparison for raced writers",
-           "retirement stamps / successor links only under the bucket guard"]
+           "retirement stamps / successor links only under the bucket guard",
+           'a lost compare-exchange of the version clock is retried and its result examined',
+           'retirement_timestamp walks the whole successor chain']
 NOT_DECIDED = ["linearizability of concurrent histories", "no lost increment / exactly one CAS winner (schedule-level)"]
 ASSUMPTIONS = ["the scc entry guard serialises all mutations of one key (by its types)"]
 
